@@ -39,6 +39,8 @@ package writer
 //@ spec wfNames(c *ChannelWriter) bool = forall k string :: umHas(c.nameMappings, k) ==> oneDot(k) && oneDot(umGet(c.nameMappings, k))
 // agreeNames: all entries that apply to (d, cl) give the same result (the four mapping shapes of the
 // property - none, exact, whole-database, unrelated - satisfy it; request validation does not enforce it)
+// targetsNamed: no mapping entry names an empty target database
+//@ spec targetsNamed(c *ChannelWriter) bool = forall k string :: umHas(c.nameMappings, k) ==> fullDB(umGet(c.nameMappings, k)) != ""
 //@ spec agreeNames(c *ChannelWriter, d, cl string) bool = forall k1 string, k2 string :: umHas(c.nameMappings, k1) && umHas(c.nameMappings, k2) && applies(k1, d, cl) && applies(k2, d, cl) ==> fullDB(umGet(c.nameMappings, k1)) == fullDB(umGet(c.nameMappings, k2)) && outColl(k1, umGet(c.nameMappings, k1), d, cl) == outColl(k2, umGet(c.nameMappings, k2), d, cl)
 
 //@ func (*ChannelWriter).mapDBAndCollectionName
@@ -47,6 +49,7 @@ package writer
 //@   ensures [mapped-by-applicable-entry] agreeNames(c, dbOrDefault(db), collection) ==> (forall k string :: umHas(c.nameMappings, k) && applies(k, dbOrDefault(db), collection) ==> result0 == fullDB(umGet(c.nameMappings, k)) && result1 == outColl(k, umGet(c.nameMappings, k), dbOrDefault(db), collection))
 //@   ensures [unchanged-when-no-entry-applies] (forall k string :: umHas(c.nameMappings, k) ==> !applies(k, dbOrDefault(db), collection)) ==> result0 == dbOrDefault(db) && result1 == collection
 //@   ensures [never-the-empty-database] dbOrDefault(db) != "" 
+//@   ensures [named-targets-give-a-named-database] targetsNamed(c) ==> result0 != ""
 //@   modifies nothing
 //@   panics never
 //@   rangeloop 1 invariant (forall k string :: visited(k) ==> !applies(k, dbOrDefault(db), collection)) && returnDB == dbOrDefault(db) && returnCollection == collection && local(db) == dbOrDefault(db) && local(collection) == collection && preservedCells(string)
